@@ -421,6 +421,15 @@ def history(ctx: Any) -> List[Ob]:
                 pass
     dels = [n for n in xcfg.nodes if n.kind == 'stmt' and (isinstance(n.ast, ast.Delete) or any(call_name(c) == 'pop' for c in n.calls()))]
     per_entry = bool(age_tests) and all(any(lp_ for lp_ in t.in_loop) for t in age_tests)
+    if not age_tests:
+        # ... or the filter of a comprehension over the history (per entry by construction)
+        for cmp_ in walk_local_ordered(ex.node):
+            if isinstance(cmp_, (ast.ListComp, ast.SetComp, ast.GeneratorExp)) and len(cmp_.generators) == 1 and any(self_attr(x, xme) == '_history' for x in ast.walk(cmp_.generators[0].iter)) and len(cmp_.generators[0].ifs) == 1:
+                try:
+                    pp, oo = lf.comparison(prog, ex.module, cmp_.generators[0].ifs[0], lambda x: ('NOW' if isinstance(x, ast.Name) and x.id == ex.params[1] else ('THEN' if isinstance(x, ast.Name) else None)))
+                    per_entry = lf.same_cmp((pp, oo), lf.parse_cmp('999 - NOW + THEN < 0'))
+                except lf.NotLinear:
+                    pass
     obs.append(ob(R, ex, clears[0] if clears else 'for question, (than, _) in history: if now - than > 999: remove', 'expiry drops exactly the questions last recorded more than 999 ms ago, each judged by its own time (never the whole history at once)', per_entry and not clears and bool(dels), 'the whole history is dropped on the evidence of one entry' if clears else ''))
     cl = prog.func('zeroconf._engine.AsyncEngine._async_cache_cleanup')
     hcalls = [c for c in walk_local_ordered(cl.node) if isinstance(c, ast.Call) and isinstance(c.func, ast.Attribute) and 'question_history' in norm(c.func.value)]
